@@ -91,6 +91,9 @@ func transparentStruct(t types.Type) bool {
 			return false
 		}
 		p := n.Obj().Pkg().Path()
+		if p == "net/http" && (n.Obj().Name() == "Request" || n.Obj().Name() == "Response") {
+			return true // modelled field by field (the code reads and writes their fields directly)
+		}
 		return strings.HasPrefix(p, modPrefix)
 	case *types.Struct:
 		return true // anonymous struct literal types in the module
